@@ -289,11 +289,18 @@ func (p *Parser) parseInExpression(left Expression) Expression {
 		return nil
 	}
 
-	return &InExpression{
+	expression := &InExpression{
 		Token: p.curToken,
 		Left:  left,
 		Range: p.parseCallArguments(),
 	}
+
+	if expression.Range != nil && len(expression.Range) == 0 {
+		// IN needs at least one operand
+		p.peekError(IDENT)
+	}
+
+	return expression
 }
 
 func (p *Parser) parseCallArguments() []Expression {
